@@ -781,6 +781,87 @@ fn stress_sole_owner_with_weak(pr: &PropRun) -> LaneReport {
     rep
 }
 
+thread_local! {
+    static PC_MADE: std::cell::Cell<u64> = std::cell::Cell::new(0);
+    static PC_DROPPED: std::cell::Cell<u64> = std::cell::Cell::new(0);
+    static PC_PANIC_AT: std::cell::Cell<u64> = std::cell::Cell::new(u64::MAX);
+    static PC_CLONES: std::cell::Cell<u64> = std::cell::Cell::new(0);
+}
+
+/// Element whose Clone panics at a chosen clone count (it owns nothing, so a destructor run on a slot that was never
+/// constructed is counted, not undefined behaviour that matters here).
+struct PanicsOnClone(u32);
+impl PanicsOnClone {
+    fn new(i: u32) -> Self {
+        PC_MADE.with(|c| c.set(c.get() + 1));
+        PanicsOnClone(i)
+    }
+}
+impl Clone for PanicsOnClone {
+    fn clone(&self) -> Self {
+        let n = PC_CLONES.with(|c| {
+            c.set(c.get() + 1);
+            c.get()
+        });
+        if n == PC_PANIC_AT.with(|c| c.get()) {
+            panic!("harness: element clone panics");
+        }
+        PanicsOnClone::new(self.0)
+    }
+}
+impl Drop for PanicsOnClone {
+    fn drop(&mut self) {
+        PC_DROPPED.with(|c| c.set(c.get() + 1));
+    }
+}
+
+/// clone() of a slice value whose element Clone panics part-way (caught): every element that was constructed — the
+/// originals and the clones made before the panic — is destroyed exactly once, and nothing else is.
+pub fn case_clone_panics(bytes: &[u8], _s: &[u8], ctx: &mut Ctx) -> Result<(), Fail> {
+    let mut src = Source::new(bytes);
+    let n = 1 + src.below(6);
+    let shape = src.below(3); // 0 owned exact, 1 owned with spare capacity, 2 shared
+    let panic_at = 1 + src.below(n) as u64;
+    let clones_before = src.below(2);
+    ctx.case(&("clone panics part-way", n, shape, panic_at, clones_before));
+    ctx.nontrivial("element-clone-panics-during-clone-of-the-slice");
+    for c in [&PC_MADE, &PC_DROPPED, &PC_CLONES] {
+        c.with(|c| c.set(0));
+    }
+    PC_PANIC_AT.with(|c| c.set(u64::MAX));
+    let cow: Cow<'static, [PanicsOnClone]> = match shape {
+        0 => Cow::from_owned((0..n as u32).map(PanicsOnClone::new).collect::<Vec<_>>()),
+        1 => {
+            let mut v = Vec::with_capacity(n + 5);
+            v.extend((0..n as u32).map(PanicsOnClone::new));
+            Cow::from_owned(v)
+        }
+        _ => Cow::from_shared((0..n as u32).map(PanicsOnClone::new).collect::<Arc<[PanicsOnClone]>>()),
+    };
+    let mut kept: Vec<Cow<'static, [PanicsOnClone]>> = Vec::new();
+    for _ in 0..clones_before {
+        kept.push(cow.clone());
+    }
+    let already = PC_CLONES.with(|c| c.get());
+    PC_PANIC_AT.with(|c| c.set(already + panic_at));
+    let hook = std::panic::take_hook();
+    std::panic::set_hook(Box::new(|_| {}));
+    let r = std::panic::catch_unwind(std::panic::AssertUnwindSafe(|| cow.clone()));
+    std::panic::set_hook(hook);
+    PC_PANIC_AT.with(|c| c.set(u64::MAX));
+    if let Ok(c) = r {
+        // (a shared value is cloned without cloning elements: no panic)
+        ctx.class("clone-did-not-clone-elements");
+        kept.push(c);
+    }
+    ensure!(cow.len() == n && cow.iter().enumerate().all(|(i, e)| e.0 == i as u32), "content-differs", "after a clone() that panicked the source no longer reads back its {} elements", n);
+    drop(kept);
+    drop(cow);
+    let (made, dropped) = (PC_MADE.with(|c| c.get()), PC_DROPPED.with(|c| c.get()));
+    ensure!(made == dropped, "element-drop-count", "{} elements, clone() of the slice with the element clone panicking at its {}-th call: {} elements were constructed in all (originals and completed clones) but {} destructors ran", n, panic_at, made, dropped);
+    Ok(())
+}
+
 fn probes(pr: &PropRun) -> crate::engine::runner::LaneReport {
     use crate::engine::runner::{LaneReport, Violation};
     use std::process::Command;
@@ -865,6 +946,7 @@ pub fn run(cfg: &RunCfg, replay: Option<&str>) -> i32 {
     pr.register("ops-with-threads", &case_threads);
     pr.register("ill-typed-programs-rejected", &case_probe_replay);
     pr.register("zero-sized-elements", &case_zst);
+    pr.register("element-clone-panics", &case_clone_panics);
     if let Some(f) = replay {
         return pr.replay(f);
     }
@@ -877,6 +959,8 @@ pub fn run(cfg: &RunCfg, replay: Option<&str>) -> i32 {
     let r = run_lane(&c, "C14", &Lane { name: "ops-allocation-tracked", cases: c.cases(2_000_000, 30_000_000), max_len: 128, sched_len: 0, workers: 0, f: &case_tracked });
     pr.push(r);
     let r = run_lane(&c, "C14", &Lane { name: "ops-with-threads", cases: c.cases(60_000, 1_000_000), max_len: 128, sched_len: 0, workers: 0, f: &case_threads });
+    pr.push(r);
+    let r = run_lane(&c, "C14", &Lane { name: "element-clone-panics", cases: c.cases(20_000, 400_000), max_len: 8, sched_len: 0, workers: 1, f: &case_clone_panics });
     pr.push(r);
     let r = run_lane(&c, "C14", &Lane { name: "zero-sized-elements", cases: c.cases(4_000, 100_000), max_len: 8, sched_len: 0, workers: 1, f: &case_zst });
     pr.push(r);
